@@ -416,6 +416,64 @@ func runC17schedMenu(x *X, family string, nthreads, opsPer int, bound int, c17Me
 }
 
 func runC17(x *X) {
+	// cold start: the very first thing a worker process does with the registry is one of these programs (state that
+	// is initialised lazily on first use must not lose or resurrect anything)
+	x.Explore("cold-start-registry", ExploreOpts{Cold: true, Bound: "one program per worker process, chosen by shard number, run before anything else touches the registry: re-register a built-in / register a new name first, then look up, list or render by name; sequential and as a two-thread program"}, func(c *Chooser) {
+		p := c.Choose(x.NShards)
+		names := []string{"ncold", c17Builtin, "nevercold"}
+		progs := [][]c17Op{
+			{{"register", 1, 1}, {"named", 1, 0}, {"list", 0, 0}},
+			{{"register", 1, 1}, {"list", 0, 0}, {"named", 1, 0}},
+			{{"register", 1, 2}, {"render", 1, 0}, {"named", 1, 0}},
+			{{"register", 0, 1}, {"list", 0, 0}, {"named", 0, 0}, {"named", 1, 0}},
+			{{"named", 2, 0}, {"register", 1, 1}, {"named", 1, 0}},
+			{{"list", 0, 0}, {"register", 1, 1}, {"render", 1, 0}},
+			{{"register", 1, 1}, {"register", 0, 2}, {"render", 0, 0}, {"render", 1, 0}},
+			{{"render", 2, 0}, {"register", 1, 1}, {"list", 0, 0}, {"named", 1, 0}},
+		}
+		prog := progs[p%len(progs)]
+		concurrent := p >= len(progs)
+		desc := fmt.Sprint(prog)
+		if concurrent {
+			desc = "first op || the rest: " + desc
+		}
+		c.Logf("cold program %s (names %v)", desc, names)
+		defer resetNames(names[0], names[2])
+		defer func() { decoration.RegisterDecorationName(c17Builtin, c17Orig()) }()
+		initial := map[string]int{c17Builtin: 9}
+		var log []regEvent
+		clock := 0
+		tags := []string{"family:cold-start-registry", "first_use_in_process"}
+		if concurrent {
+			bodies := []func(){
+				func() { vrt.Yield(prog[0].String()); c17Exec(prog[0], names, 0, &clock, &log) },
+				func() {
+					for _, op := range prog[1:] {
+						vrt.Yield(op.String())
+						c17Exec(op, names, 1, &clock, &log)
+					}
+				},
+			}
+			res := schedule(c, bodies, 0)
+			if !schCommon(x, c, "C17", res, tags, desc) {
+				return
+			}
+		} else {
+			for _, op := range prog {
+				c17Exec(op, names, 0, &clock, &log)
+			}
+		}
+		for i := range names {
+			c17Exec(c17Op{"named", i, 0}, names, 99, &clock, &log)
+		}
+		c17Exec(c17Op{"list", 0, 0}, names, 99, &clock, &log)
+		x.Clause("C17.linearizable")
+		if ok, why := c17Linearizable(log, names, initial); !ok {
+			x.Fail("C17.linearizable", tags, "first use of the registry in this process: no sequential order of the operations explains what was observed: %s; program %s", why, desc)
+			return
+		}
+		x.Nontrivial(desc)
+	})
 	// sequential histories: map model + fails closed
 	depth := x.Pick(4, 5)
 	x.Explore("sequential", ExploreOpts{ShardDepth: 2, Bound: fmt.Sprintf("all sequences of <=%d registry operations; name m is a fresh name (10 lengths) or the init-time built-in %s (overwritten, restored afterwards)", depth, c17Builtin)}, func(c *Chooser) {
